@@ -608,8 +608,14 @@ impl TDigestMut {
             check_non_nan(mean, "centroid mean")?;
             check_finite(mean, "centroid")?;
             let weight = check_nonzero(weight, "centroid weight")?;
-            centroids_weight += weight.get();
+            centroids_weight = checked_total(centroids_weight, weight)?;
             centroids.push(Centroid { mean, weight });
+        }
+        // total_weight() also counts the buffered values
+        if centroids_weight.checked_add(num_buffered as u64).is_none() {
+            return Err(Error::deserial(
+                "malformed data: total weight of centroids and buffered values overflows u64",
+            ));
         }
         let mut buffer = Vec::with_capacity(num_buffered);
         for _ in 0..num_buffered {
@@ -681,7 +687,7 @@ impl TDigestMut {
                     let weight = check_nonzero(weight, "centroid weight in compat double format")?;
                     check_non_nan(mean, "centroid mean in compat double format")?;
                     check_finite(mean, "centroid mean in compat double format")?;
-                    total_weight += weight.get();
+                    total_weight = checked_total(total_weight, weight)?;
                     centroids.push(Centroid { mean, weight });
                 }
                 Ok(TDigestMut::make(
@@ -723,7 +729,7 @@ impl TDigestMut {
                     let weight = check_nonzero(weight, "centroid weight in compat float format")?;
                     check_non_nan(mean, "centroid mean in compat float format")?;
                     check_finite(mean, "centroid mean in compat float format")?;
-                    total_weight += weight.get();
+                    total_weight = checked_total(total_weight, weight)?;
                     centroids.push(Centroid { mean, weight });
                 }
                 Ok(TDigestMut::make(
@@ -1336,6 +1342,12 @@ fn check_finite(value: f64, tag: &'static str) -> Result<(), Error> {
 fn check_nonzero(value: u64, tag: &'static str) -> Result<NonZeroU64, Error> {
     NonZeroU64::new(value)
         .ok_or_else(|| Error::deserial(format!("malformed data: {tag} cannot be zero")))
+}
+
+fn checked_total(total: u64, weight: NonZeroU64) -> Result<u64, Error> {
+    total
+        .checked_add(weight.get())
+        .ok_or_else(|| Error::deserial("malformed data: total weight of centroids overflows u64"))
 }
 
 /// Generates cluster sizes proportional to `q*(1-q)`.
